@@ -72,21 +72,25 @@ theorem record_fields_in_source :
     Generated.C17.decodeTypeNameZSet = "zset" ∧ Generated.C17.decodeTypeNameAux = "aux" := by
   decide
 
-/-- the score is marshalled as a JSON *number* (`float64`), which is why a non-finite one cannot be printed. -/
-theorem score_is_float64 : ("score", "float64") ∈ Generated.C17.decodeFieldsZSet := by decide
+/-- the score field has the type `zsetScore` (repair of D19): a `float64` whose `MarshalJSON` writes a finite score as
+    `json.Marshal(float64)` does and +Inf / -Inf / NaN as the strings below — so `json.Marshal` refuses nothing
+    (`toJson` total). The underlying type and the three spellings are re-read from decode.go on every run. -/
+theorem score_is_zsetScore :
+    ("score", "zsetScore") ∈ Generated.C17.decodeFieldsZSet ∧ Generated.C17.zsetScoreUnderlying = "float64" ∧
+    Generated.C17.zsetScoreSpellings = ["inf", "-inf", "nan"] := by decide
 
 /-- both channels are buffered (`base.RDBPipeSize`), as `no_deadlock` assumes. -/
 theorem pipe_capacity_positive : 0 < Generated.C17.decodePipeSize := by decide
 
 /-! ### 4. fields_recover: one line per element, attributed to its key, bytes exact -/
 
-/-- For every item without a non-finite score (and delivered by the loader as one entry), the block of lines
-    built for it reads back — db, type, expiry, key/field/member/value bytes from the `*64` fields, list index,
-    score bits — as exactly the records the property demands, in order: none missing, none extra, none
+/-- For every item (delivered by the loader as one entry; any score, ±Inf and NaN included since the D19 repair), the
+    block of lines built for it reads back — db, type, expiry, key/field/member/value bytes from the `*64` fields,
+    list index, score bits — as exactly the records the property demands, in order: none missing, none extra, none
     attributed to another key. -/
-theorem fields_recover (it : Item) (hf : it.hasNonFinite = false) :
+theorem fields_recover (it : Item) :
     ∃ rs, blockOf (entryOf it) = some rs ∧ rs.map parseRecord = (specRecords it).map some :=
-  DecodeMode.fields_recover it hf
+  DecodeMode.fields_recover it
 
 /-- the individual `*64` fields: every line of a key carries that key's name, recoverable exactly. -/
 theorem key64_recovers (k : KeyItem) (r : Record) (rs : List Record)
@@ -108,9 +112,8 @@ theorem key64_recovers (k : KeyItem) (r : Record) (rs : List Record)
         | some js =>
           simp [hx, hm] at h
           have hj : j = x := by
-            unfold toJson at hx; split at hx
-            · cases hx
-            · exact (Option.some.inj hx).symm
+            unfold toJson at hx
+            exact (Option.some.inj hx).symm
           rw [← h, hj, ih hm]
   have := hsub hb; subst this
   cases v with
@@ -178,42 +181,40 @@ theorem nothing_lost_in_flight (cfg : Cfg) (n : Nat) (entries : List Entry) (s :
     (s.out ++ s.opipe ++ held s.ws ++ (s.ipipe ++ s.src).filterMap blockOf).Perm (entries.filterMap blockOf) :=
   reach_conserved_perm hr hna
 
-theorem items_block_flatten (items : List Item) (hf : ∀ it ∈ items, it.hasNonFinite = false) :
+theorem items_block_flatten (items : List Item) :
     (((items.map entryOf).filterMap blockOf).flatten).map parseRecord = (items.flatMap specRecords).map some := by
   induction items with
   | nil => rfl
   | cons it items ih =>
-    obtain ⟨rs, h1, h2⟩ := fields_recover it (hf it (by simp))
-    have := ih (fun x hx => hf x (by simp [hx]))
-    simp only [List.map_cons, List.filterMap_cons, h1, List.flatten_cons, List.map_append, h2, this,
+    obtain ⟨rs, h1, h2⟩ := fields_recover it
+    simp only [List.map_cons, List.filterMap_cons, h1, List.flatten_cons, List.map_append, h2, ih,
       List.flatMap_cons]
 
-/- FULL statement of the property (false of the code, see the counterexamples below):
+/- FULL statement of the property (false of the code, see the counterexample of section 7):
    theorem decode_complete (cfg n) (items : List Item) (s) (hn : 0 < n)
        (hr : DecodeReach cfg (loaderEntries items) n s) (hstuck : ∀ s', ¬ Step cfg blockOf s s') :
        s.ended = true ∧ (s.out.flatten.map parseRecord).Perm ((items.flatMap specRecords).map some)
-   for ALL items (scores incl. ±Inf/NaN, hashes of any size). -/
+   for ALL items, hashes of any size included. What is missing below is only the hash above the 16 MiB chunk limit
+   (finding chunked-hash): `items.map entryOf` = every key delivered by the loader as ONE entry. -/
 
-/-- **decode_complete_partial**: for every file whose sorted-set scores are all finite and whose keys are each
-    delivered as one entry (no hash above the 16 MiB chunk limit), every number of workers and every schedule:
-    when `decode` returns, the records read back from the output file are, as a multiset, exactly the records
+/-- **decode_complete_partial**: for every file whose keys are each delivered as one entry (no hash above the 16 MiB
+    chunk limit) — scores of any kind, ±Inf and NaN included since the D19 repair —, every number of workers and every
+    schedule: when `decode` returns, the records read back from the output file are, as a multiset, exactly the records
     the property demands — one per string / list element with index / hash field / set member / zset member /
     Lua script, each with its own db, expiry and key. -/
 theorem decode_complete_partial (cfg : Cfg) (n : Nat) (items : List Item) (s : St Entry (List Record))
-    (hn : 0 < n) (hf : ∀ it ∈ items, it.hasNonFinite = false)
-    (hr : DecodeReach cfg (items.map entryOf) n s) (he : s.ended = true) :
+    (hn : 0 < n) (hr : DecodeReach cfg (items.map entryOf) n s) (he : s.ended = true) :
     (s.out.flatten.map parseRecord).Perm ((items.flatMap specRecords).map some) := by
   have := ((ended_perm hn hr he).flatten).map parseRecord
-  rwa [items_block_flatten items hf] at this
+  rwa [items_block_flatten items] at this
 
-/-- under the same hypotheses the process never aborts. -/
+/-- under the same hypothesis the process never aborts. -/
 theorem never_aborts_partial (cfg : Cfg) (n : Nat) (items : List Item) (s : St Entry (List Record))
-    (hf : ∀ it ∈ items, it.hasNonFinite = false)
     (hr : DecodeReach cfg (items.map entryOf) n s) : s.aborted = false := by
   apply clean_never_aborts (block := blockOf) (entries := items.map entryOf) _ hr
   intro e he
   obtain ⟨it, hit, rfl⟩ := List.mem_map.mp he
-  obtain ⟨rs, h, _⟩ := fields_recover it (hf it hit)
+  obtain ⟨rs, h, _⟩ := fields_recover it
   simp [h]
 
 /-! ### 6. ends: the output closes after the last entry has been emitted -/
@@ -248,17 +249,16 @@ theorem terminates (cfg : Cfg) (s u : St Entry (List Record)) (k : Nat)
     output is complete. -/
 theorem maximal_run_complete_partial (cfg : Cfg) (n : Nat) (items : List Item) (s : St Entry (List Record))
     (hn : 0 < n) (hci : 0 < cfg.capIn) (hco : 0 < cfg.capOut)
-    (hf : ∀ it ∈ items, it.hasNonFinite = false)
     (hr : DecodeReach cfg (items.map entryOf) n s) (hstuck : ∀ s', ¬ Step cfg blockOf s s') :
     s.ended = true ∧ (s.out.flatten.map parseRecord).Perm ((items.flatMap specRecords).map some) := by
-  have hna := never_aborts_partial cfg n items s hf hr
+  have hna := never_aborts_partial cfg n items s hr
   have he : s.ended = true := by
     cases h : s.ended with
     | true => rfl
     | false =>
       obtain ⟨s', hs⟩ := progress hn hci hco hr h hna
       exact absurd hs (hstuck s')
-  exact ⟨he, decode_complete_partial cfg n items s hn hf hr he⟩
+  exact ⟨he, decode_complete_partial cfg n items s hn hr he⟩
 
 /-- non-vacuity of the pipeline theorems: a concrete complete run with 2 workers and 2 entries in which the
     SECOND entry's block is written first (the order across keys is schedule dependent). -/
@@ -285,9 +285,18 @@ example : ∃ s : St Nat Nat, Reach ⟨1, 1⟩ (fun e => some (e + 10)) [1, 2] 2
 
 /-! ### 7. D19: what the code does on the excluded inputs -/
 
-/-- a non-finite score makes the worker abort instead of producing the block. -/
-theorem nonfinite_aborts (it : Item) (hf : it.hasNonFinite = true) : blockOf (entryOf it) = none :=
-  DecodeMode.nonfinite_aborts it hf
+/-- the block function of the PINNED tree: `json.Marshal` refused a non-finite score (`toJsonPinned`) -/
+def marshalAllPinned : List Record → Option (List Record)
+  | [] => some []
+  | r :: rs =>
+    match toJsonPinned r, marshalAllPinned rs with
+    | some j, some js => some (j :: js)
+    | _, _ => none
+
+def blockOfPinned : Entry → Option (List Record)
+  | .aux k v => marshalAllPinned [recAux k v]
+  | .obj _ _ _ none => none
+  | .obj db exp key (some v) => marshalAllPinned (objRecords db exp key v)
 
 /-- an entry whose block cannot be built anywhere in the file ⇒ under NO schedule does `decode` return
     normally (the process exits in a worker; lines not yet written are lost). -/
@@ -299,21 +308,22 @@ theorem doomed_never_ends (cfg : Cfg) (n : Nat) (entries : List Entry) (s : St E
 def infWitness : List Item :=
   [.key ⟨0, 0, [0x61], .str [0x78]⟩, .key ⟨0, 0, [0x7a], .zset [([0x6d], 0x7ff0000000000000)]⟩]
 
-/-- **counterexample (sig=score-nonfinite)**: the property demands two records for `infWitness`, but with the
-    code as it stands no schedule of any number of workers ever completes the run; with one worker the run
-    that loads, decodes and writes in file order ends in the abort with only the first line written. -/
-theorem counterexample_score_nonfinite :
+/-- **counterexample (D19 score-nonfinite, the PINNED tree; repaired by a `fix:` commit)**: the property demands two
+    records for `infWitness`, but with the pinned marshaller no schedule of any number of workers ever completed the run;
+    with one worker the run that loads, decodes and writes in file order ended in the abort with only the first line
+    written. -/
+theorem counterexample_score_nonfinite_pinned :
     (infWitness.flatMap specRecords).length = 2 ∧
-    (∀ cfg n s, 0 < n → DecodeReach cfg (infWitness.map entryOf) n s → s.ended = false) ∧
-    (∃ s, DecodeReach ⟨1024, 1024⟩ (infWitness.map entryOf) 1 s ∧ s.aborted = true ∧ s.out.flatten.length = 1) := by
+    (∀ cfg n s, 0 < n → Reach cfg blockOfPinned (infWitness.map entryOf) n s → s.ended = false) ∧
+    (∃ s, Reach ⟨1024, 1024⟩ blockOfPinned (infWitness.map entryOf) 1 s ∧ s.aborted = true ∧ s.out.flatten.length = 1) := by
   refine ⟨by decide, ?_, ?_⟩
   · intro cfg n s hn hr
-    exact doomed_never_ends cfg n _ s hn ⟨entryOf (.key ⟨0, 0, [0x7a], .zset [([0x6d], 0x7ff0000000000000)]⟩),
+    exact Pipe.doomed_never_ends hn ⟨entryOf (.key ⟨0, 0, [0x7a], .zset [([0x6d], 0x7ff0000000000000)]⟩),
       by simp [infWitness], by decide⟩ hr
   · let e1 := entryOf (.key ⟨0, 0, [0x61], .str [0x78]⟩)
     let e2 := entryOf (.key ⟨0, 0, [0x7a], .zset [([0x6d], 0x7ff0000000000000)]⟩)
     let c : Cfg := ⟨1024, 1024⟩
-    have r0 : DecodeReach c [e1, e2] 1 _ := Reach.start
+    have r0 : Reach c blockOfPinned [e1, e2] 1 _ := Reach.start
     have r1 := Reach.step r0 ⟨rfl, Move.load _ e1 [e2] rfl (by decide)⟩
     have r2 := Reach.step r1 ⟨rfl, Move.take _ [] [] e1 [] [recString 0 0 [0x61] [0x78]] rfl rfl (by decide)⟩
     have r3 := Reach.step r2 ⟨rfl, Move.emit _ [] [] _ rfl (by decide)⟩
@@ -322,10 +332,13 @@ theorem counterexample_score_nonfinite :
     have r6 := Reach.step r5 ⟨rfl, Move.takeAbort _ [] [] e2 [] rfl rfl (by decide)⟩
     exact ⟨_, r6, rfl, rfl⟩
 
-/-- NaN and -Inf likewise. -/
-theorem counterexample_score_nan_neginf :
-    blockOf (entryOf (.key ⟨0, 0, [0x7a], .zset [([0x6d], 0x7ff8000000000001)]⟩)) = none ∧
-    blockOf (entryOf (.key ⟨0, 0, [0x7a], .zset [([0x6d], 0xfff0000000000000)]⟩)) = none := by decide
+/-- … and the repaired marshaller prints both records of that file, and those of NaN and -Inf scores -/
+theorem score_nonfinite_printed :
+    (blockOf (entryOf (.key ⟨0, 0, [0x7a], .zset [([0x6d], 0x7ff0000000000000)]⟩))).isSome = true ∧
+    (blockOf (entryOf (.key ⟨0, 0, [0x7a], .zset [([0x6d], 0x7ff8000000000001)]⟩))).isSome = true ∧
+    (blockOf (entryOf (.key ⟨0, 0, [0x7a], .zset [([0x6d], 0xfff0000000000000)]⟩))).isSome = true ∧
+    blockOfPinned (entryOf (.key ⟨0, 0, [0x7a], .zset [([0x6d], 0x7ff8000000000001)]⟩)) = none ∧
+    blockOfPinned (entryOf (.key ⟨0, 0, [0x7a], .zset [([0x6d], 0xfff0000000000000)]⟩)) = none := by decide
 
 /-- What the loader delivers for a hash above the chunk limit: chunk entries of the same key whose
     `DecodeDump` outcome is `o₁, o₂, …` (D19: in general an error; C01 models the split, C12 the decoder). -/
